@@ -22,7 +22,8 @@ pub struct C12;
 pub static P: C12 = C12;
 
 pub const KW_FIELDS: [&str; 2] = ["k1", "k2"];
-pub const I64_FIELDS: [&str; 2] = ["i1", "i2"];
+pub const I64_FIELDS: [&str; 3] = ["i1", "i2", "t1"];
+pub const DATE_BASE: i64 = 1_609_459_200_000; // 2021-01-01T00:00:00Z
 pub const F64_FIELDS: [&str; 2] = ["f1", "f2"];
 pub const KW_VALUES: [&str; 6] = ["a", "b", "c", "d", "e", "f"];
 const REL: f64 = 1e-9;
@@ -159,6 +160,24 @@ pub fn gen_doc(rng: &mut Rng, id: String) -> Value {
       m.insert("i2".into(), json!(vs));
     }
   }
+  // dates: epoch milliseconds around 2021/2022, a few before 1970
+  let date = |rng: &mut Rng| -> i64 {
+    if rng.chance(1, 12) {
+      -(rng.range(0, 800) * 86_400_000 + rng.range(0, 23) * 3_600_000)
+    } else {
+      DATE_BASE + rng.range(0, 500) * 86_400_000 + rng.range(0, 23) * 3_600_000 + rng.range(0, 3) * 900_000
+    }
+  };
+  match rng.below(6) {
+    0 => {}
+    1 => {
+      let vs: Vec<i64> = (0..2).map(|_| date(rng)).collect();
+      m.insert("t1".into(), json!(vs));
+    }
+    _ => {
+      m.insert("t1".into(), json!(date(rng)));
+    }
+  }
   if !rng.chance(1, 6) {
     m.insert("f1".into(), json!(quarter(rng, -3, 12)));
   }
@@ -201,7 +220,7 @@ fn gen_filter(rng: &mut Rng, depth: usize) -> Value {
   match rng.below(if depth == 0 { 3 } else { 6 }) {
     0 => json!({"KeywordEq": {"field": pick_kw_field(rng), "value": *rng.pick(&KW_VALUES)}}),
     1 => {
-      let f = *rng.pick(&I64_FIELDS);
+      let f = *rng.pick(&["i1", "i2"]);
       let lo = rng.range(-4, 12);
       json!({"I64Range": {"field": f, "min": lo, "max": lo + rng.range(0, 12)}})
     }
@@ -273,12 +292,82 @@ pub fn gen_agg(rng: &mut Rng, depth: usize, risky: bool) -> Value {
         json!({"type": "percentile_ranks", "field": f, "values": ts, "missing": num_missing(rng, f)})
       }
       _ => {
-        let f = pick_num_field(rng);
-        json!({"type": "stats", "field": f, "missing": Value::Null})
+        // top_hits sorted by numeric fields (ties: index order); `from` > 0 only when risky
+        let n = 1 + rng.below(2);
+        let sort: Vec<Value> = (0..n).map(|_| json!({"field": pick_num_field(rng), "order": *rng.pick(&["asc", "desc"])})).collect();
+        let from = if risky && rng.chance(1, 2) { 1 + rng.below(2) } else { 0 };
+        json!({"type": "top_hits", "size": rng.below(4), "from": from, "sort": sort})
       }
     };
   }
-  match rng.below(if risky { 8 } else { 7 }) {
+  match rng.below(if risky { 10 } else { 9 }) {
+    7 => {
+      // date_histogram over the date field
+      let mut a = json!({"type": "date_histogram", "field": "t1"});
+      let calendar = rng.chance(1, 2);
+      if calendar {
+        a["calendar_interval"] = json!(*rng.pick(&["day", "week", "month", "quarter", "year", "1w", "1M", "1q"]));
+      } else {
+        a["fixed_interval"] = json!(*rng.pick(&["1d", "12h", "7d", "36h", "30d", "2w"]));
+      }
+      let bounds = rng.below(5);
+      // (calendar interval + offset + bounds is left out: see the report — the fill loop of the
+      // code drops the offset after its first step)
+      if rng.chance(1, 3) && !(calendar && bounds <= 1) {
+        a["offset"] = json!(*rng.pick(&["1h", "30m", "0.5d", "6h"]));
+      }
+      let day = |rng: &mut Rng| -> String { rfc3339(DATE_BASE + rng.range(-20, 420) * 86_400_000 + rng.range(0, 23) * 3_600_000) };
+      match bounds {
+        0 => {
+          let (x, y) = (day(rng), day(rng));
+          let (lo, hi) = if x <= y { (x, y) } else { (y, x) };
+          a["extended_bounds"] = json!({"min": lo, "max": hi});
+        }
+        1 => {
+          let (x, y) = (day(rng), day(rng));
+          let (lo, hi) = if x <= y { (x, y) } else { (y, x) };
+          a["hard_bounds"] = json!({"min": lo, "max": hi});
+        }
+        _ => {}
+      }
+      if rng.chance(1, 4) {
+        a["missing"] = if rng.chance(1, 2) { json!(day(rng)) } else { json!(format!("{}", DATE_BASE + rng.range(0, 300) * 86_400_000)) };
+      }
+      if rng.chance(1, 3) {
+        a["min_doc_count"] = json!(rng.below(2));
+      }
+      if risky && rng.chance(1, 3) {
+        a["min_doc_count"] = json!(2);
+      }
+      with_subs(rng, a, depth, risky)
+    }
+    8 => {
+      // date_range over the date field: RFC 3339 or numeric-string bounds
+      let n = 1 + rng.below(3);
+      let mut ranges: Vec<Value> = Vec::new();
+      let mut seen = BTreeSet::new();
+      for i in 0..n {
+        let lo = DATE_BASE + rng.range(-30, 400) * 86_400_000;
+        let hi = lo + rng.range(0, 200) * 86_400_000;
+        let fmt = |rng: &mut Rng, v: i64| -> Value { if rng.chance(1, 2) { json!(rfc3339(v)) } else { json!(format!("{v}")) } };
+        let mut r = match rng.below(5) {
+          0 => json!({"to": fmt(rng, hi)}),
+          1 => json!({"from": fmt(rng, lo)}),
+          _ => json!({"from": fmt(rng, lo), "to": fmt(rng, hi)}),
+        };
+        if rng.chance(1, 2) {
+          r["key"] = json!(format!("r{i}"));
+        }
+        if seen.insert(date_range_key(&r).to_string()) {
+          ranges.push(r);
+        }
+      }
+      let mut a = json!({"type": "date_range", "field": "t1", "keyed": false, "ranges": ranges});
+      if rng.chance(1, 4) {
+        a["missing"] = json!(rfc3339(DATE_BASE + rng.range(0, 300) * 86_400_000));
+      }
+      with_subs(rng, a, depth, risky)
+    }
     0 | 1 => {
       let f = pick_kw_field(rng);
       let mut a = json!({"type": "terms", "field": f});
@@ -367,7 +456,7 @@ pub fn gen_agg(rng: &mut Rng, depth: usize, risky: bool) -> Value {
           sources.push(json!({"type": "terms", "name": format!("c{i}"), "field": pick_kw_field(rng)}));
         } else {
           // histogram sources over i64 columns yield no buckets (known finding): only when risky
-          let f = if risky && rng.chance(1, 3) { *rng.pick(&I64_FIELDS) } else { *rng.pick(&F64_FIELDS) };
+          let f = if risky && rng.chance(1, 3) { *rng.pick(&["i1", "i2"]) } else { *rng.pick(&F64_FIELDS) };
           sources.push(json!({"type": "histogram", "name": format!("c{i}"), "field": f, "interval": *rng.pick(&[0.5, 1.0, 2.5, 5.0])}));
         }
       }
@@ -384,6 +473,148 @@ pub fn gen_agg(rng: &mut Rng, depth: usize, risky: bool) -> Value {
         a["size"] = json!(1 + rng.below(3));
       }
       with_subs(rng, a, depth, risky)
+    }
+  }
+}
+
+// ------------------------------------------------------------------ dates (own arithmetic)
+
+pub fn days_from_civil(y: i64, m: i64, d: i64) -> i64 {
+  let y = if m <= 2 { y - 1 } else { y };
+  let era = y.div_euclid(400);
+  let yoe = y - era * 400;
+  let mp = (m + 9) % 12;
+  let doy = (153 * mp + 2) / 5 + d - 1;
+  let doe = yoe * 365 + yoe / 4 - yoe / 100 + doy;
+  era * 146097 + doe - 719468
+}
+
+pub fn civil_from_days(z: i64) -> (i64, i64, i64) {
+  let z = z + 719468;
+  let era = z.div_euclid(146097);
+  let doe = z - era * 146097;
+  let yoe = (doe - doe / 1460 + doe / 36524 - doe / 146096) / 365;
+  let y = yoe + era * 400;
+  let doy = doe - (365 * yoe + yoe / 4 - yoe / 100);
+  let mp = (5 * doy + 2) / 153;
+  let d = doy - (153 * mp + 2) / 5 + 1;
+  let m = if mp < 10 { mp + 3 } else { mp - 9 };
+  (if m <= 2 { y + 1 } else { y }, m, d)
+}
+
+pub fn rfc3339(ms: i64) -> String {
+  let days = ms.div_euclid(86_400_000);
+  let rem = ms.rem_euclid(86_400_000) / 1000;
+  let (y, m, d) = civil_from_days(days);
+  format!("{:04}-{:02}-{:02}T{:02}:{:02}:{:02}Z", y, m, d, rem / 3600, (rem / 60) % 60, rem % 60)
+}
+
+/// `parse_date`: `YYYY-MM-DDTHH:MM:SSZ` or a number, in epoch milliseconds
+pub fn parse_date_str(s: &str) -> Option<f64> {
+  let b = s.as_bytes();
+  if b.len() == 20 && b[4] == b'-' && b[10] == b'T' && b[19] == b'Z' {
+    let n = |r: std::ops::Range<usize>| -> Option<i64> { s.get(r)?.parse().ok() };
+    let days = days_from_civil(n(0..4)?, n(5..7)?, n(8..10)?);
+    return Some(((days * 86_400 + n(11..13)? * 3600 + n(14..16)? * 60 + n(17..19)?) * 1000) as f64);
+  }
+  s.parse().ok()
+}
+
+fn date_loose(v: &Value) -> Option<f64> {
+  match v {
+    Value::String(s) => parse_date_str(s),
+    Value::Number(n) => n.as_f64(),
+    _ => None,
+  }
+}
+
+/// seconds of `1d`, `12h`, `90m`, `0.5d`, …
+fn interval_seconds(spec: &str) -> Option<f64> {
+  let idx = spec.find(|c: char| !(c.is_ascii_digit() || c == '.')).unwrap_or(spec.len());
+  if idx == 0 {
+    return None;
+  }
+  let v: f64 = spec[..idx].parse().ok()?;
+  let mult = match &spec[idx..] {
+    "" | "s" => 1.0,
+    "ms" => 0.001,
+    "m" => 60.0,
+    "h" => 3600.0,
+    "d" => 86_400.0,
+    "w" => 604_800.0,
+    _ => return None,
+  };
+  Some(v * mult)
+}
+
+#[derive(Clone, Copy)]
+enum DateIv {
+  Fixed(i64),
+  Day,
+  Week,
+  Month,
+  Quarter,
+  Year,
+}
+
+fn date_interval(agg: &Value) -> DateIv {
+  if let Some(c) = agg.get("calendar_interval").and_then(|c| c.as_str()) {
+    match c.to_ascii_lowercase().as_str() {
+      "day" | "1d" => return DateIv::Day,
+      "week" | "1w" => return DateIv::Week,
+      "month" | "1m" => return DateIv::Month,
+      "quarter" | "1q" => return DateIv::Quarter,
+      "year" | "1y" => return DateIv::Year,
+      _ => {}
+    }
+  }
+  let secs = agg.get("fixed_interval").and_then(|c| c.as_str()).and_then(interval_seconds).unwrap_or(86_400.0);
+  DateIv::Fixed((secs * 1000.0) as i64)
+}
+
+/// start (in days) of the calendar unit containing day `days`
+fn unit_start(days: i64, iv: DateIv) -> i64 {
+  let (y, m, _) = civil_from_days(days);
+  match iv {
+    DateIv::Day | DateIv::Fixed(_) => days,
+    DateIv::Week => days - (days + 3).rem_euclid(7), // 1970-01-01 was a Thursday
+    DateIv::Month => days_from_civil(y, m, 1),
+    DateIv::Quarter => days_from_civil(y, (m - 1) / 3 * 3 + 1, 1),
+    DateIv::Year => days_from_civil(y, 1, 1),
+  }
+}
+
+/// key of the bucket of value `v`.  Fixed intervals: the next multiple of the step at or above
+/// the value (pinned by the repository's own test
+/// `date_histogram_fixed_interval_respects_offset_and_missing`); calendar: start of the unit.
+fn date_bucket(iv: DateIv, off: i64, v: i64) -> i64 {
+  match iv {
+    DateIv::Fixed(step) => {
+      let x = (v - off) as i128;
+      let st = step as i128;
+      let q = -((-x).div_euclid(st));
+      (q * st) as i64 + off
+    }
+    _ => unit_start((v - off).div_euclid(86_400_000), iv) * 86_400_000 + off,
+  }
+}
+
+/// the bucket after `cur` (aligned like `cur`)
+fn date_next(iv: DateIv, off: i64, cur: i64) -> i64 {
+  match iv {
+    DateIv::Fixed(step) => cur + step,
+    DateIv::Day => cur + 86_400_000,
+    DateIv::Week => cur + 7 * 86_400_000,
+    _ => {
+      let days = (cur - off).div_euclid(86_400_000);
+      let (y, m, _) = civil_from_days(days);
+      let add = match iv {
+        DateIv::Month => 1,
+        DateIv::Quarter => 3,
+        _ => 12,
+      };
+      let (ny, nm) = if m + add > 12 { (y + 1, m + add - 12) } else { (y, m + add) };
+      days_from_civil(ny, nm, 1) * 86_400_000 + off
     }
   }
 }
@@ -653,11 +884,100 @@ pub fn oracle(agg: &Value, docs: &[&Doc]) -> Value {
       let buckets: Vec<Value> = bs.iter().map(|(k, ds)| bucket_view(json!(k), agg, ds)).collect();
       json!({"k": ty, "buckets": buckets})
     }
+    "top_hits" => {
+      let sort = agg["sort"].as_array().cloned().unwrap_or_default();
+      let key = |d: &Doc| -> Vec<Option<f64>> {
+        sort
+          .iter()
+          .map(|sp| {
+            let vs = d.nums(sp["field"].as_str().unwrap_or(""));
+            if vs.is_empty() {
+              None
+            } else if sp["order"] == "desc" {
+              Some(vs.iter().cloned().fold(f64::NEG_INFINITY, f64::max))
+            } else {
+              Some(vs.iter().cloned().fold(f64::INFINITY, f64::min))
+            }
+          })
+          .collect()
+      };
+      // `docs` is in index order; a stable sort keeps it for ties
+      let mut ranked: Vec<(Vec<Option<f64>>, &Doc)> = docs.iter().map(|d| (key(d), *d)).collect();
+      ranked.sort_by(|a, b| {
+        for (i, sp) in sort.iter().enumerate() {
+          let o = match (a.0[i], b.0[i]) {
+            (None, None) => std::cmp::Ordering::Equal,
+            (None, _) => std::cmp::Ordering::Greater,
+            (_, None) => std::cmp::Ordering::Less,
+            (Some(x), Some(y)) => {
+              if sp["order"] == "desc" {
+                y.total_cmp(&x)
+              } else {
+                x.total_cmp(&y)
+              }
+            }
+          };
+          if o != std::cmp::Ordering::Equal {
+            return o;
+          }
+        }
+        std::cmp::Ordering::Equal
+      });
+      let from = agg.get("from").and_then(|f| f.as_u64()).unwrap_or(0) as usize;
+      let size = agg["size"].as_u64().unwrap_or(0) as usize;
+      let hits: Vec<String> = ranked.iter().skip(from).take(size).map(|(_, d)| d.id.clone()).collect();
+      json!({"k": "top_hits", "total": docs.len(), "hits": hits})
+    }
+    "date_histogram" => {
+      let iv = date_interval(agg);
+      let off = agg.get("offset").and_then(|o| o.as_str()).and_then(interval_seconds).map(|s| (s * 1000.0) as i64).unwrap_or(0);
+      let bounds = |k: &str| -> Option<(i64, i64)> {
+        let b = agg.get(k).filter(|b| !b.is_null())?;
+        Some((parse_date_str(b["min"].as_str()?)? as i64, parse_date_str(b["max"].as_str()?)? as i64))
+      };
+      let ext = bounds("extended_bounds");
+      let hard = bounds("hard_bounds");
+      let missing = agg.get("missing").and_then(|m| m.as_str()).and_then(parse_date_str).map(|v| v as i64);
+      let mdc = agg.get("min_doc_count").and_then(|m| m.as_u64()).unwrap_or(0) as usize;
+      let mut map: BTreeMap<i64, Vec<&Doc>> = BTreeMap::new();
+      if let Some((lo, hi)) = ext.or(hard) {
+        let (mut a, mut b) = (date_bucket(iv, off, lo), date_bucket(iv, off, hi));
+        if a > b {
+          std::mem::swap(&mut a, &mut b);
+        }
+        let mut cur = a;
+        while cur <= b {
+          map.entry(cur).or_default();
+          cur = date_next(iv, off, cur);
+        }
+      }
+      for d in docs {
+        let mut mine = BTreeSet::new();
+        for v in d.nums_or(field, missing.map(|m| m as f64)) {
+          let v = v as i64;
+          if let Some((lo, hi)) = hard {
+            if v < lo || v > hi {
+              continue;
+            }
+          }
+          mine.insert(date_bucket(iv, off, v));
+        }
+        for b in mine {
+          map.entry(b).or_default().push(*d);
+        }
+      }
+      let buckets: Vec<Value> = map.iter().filter(|(_, ds)| ds.len() >= mdc).map(|(b, ds)| bucket_view(json!(*b), agg, ds)).collect();
+      json!({"k": ty, "buckets": buckets})
+    }
     "range" | "date_range" => {
+      let missing_num = if ty == "date_range" { agg.get("missing").and_then(date_loose) } else { missing_num };
       let mut buckets = Vec::new();
       for r in agg["ranges"].as_array().cloned().unwrap_or_default() {
-        let from = r.get("from").and_then(f64_loose);
-        let to = r.get("to").and_then(f64_loose);
+        let (from, to) = if ty == "date_range" {
+          (r.get("from").and_then(date_loose), r.get("to").and_then(date_loose))
+        } else {
+          (r.get("from").and_then(f64_loose), r.get("to").and_then(f64_loose))
+        };
         let ds: Vec<&Doc> = docs
           .iter()
           .filter(|d| d.nums_or(field, missing_num).iter().any(|v| from.map(|f| *v >= f).unwrap_or(true) && to.map(|t| *v <= t).unwrap_or(true)))
@@ -724,7 +1044,7 @@ fn date_range_key(r: &Value) -> Value {
   // DateRangeCollector builds RangeBound{key, from: parse_date(from), to: parse_date(to)}
   match r.get("key").and_then(|k| k.as_str()) {
     Some(k) => json!(k),
-    None => json!({"from": r.get("from").and_then(f64_loose), "to": r.get("to").and_then(f64_loose)}),
+    None => json!({"from": r.get("from").and_then(date_loose), "to": r.get("to").and_then(date_loose)}),
   }
 }
 
@@ -748,6 +1068,10 @@ pub fn canon_impl(resp: &Value) -> Value {
       "variance": resp["variance"], "std_deviation": resp["std_deviation"]}),
     "value_count" | "cardinality" => json!({"k": "value", "value": resp["value"]}),
     "percentiles" | "percentile_ranks" => json!({"k": "table", "values": resp["values"]}),
+    "top_hits" => {
+      let hits: Vec<Value> = resp["hits"].as_array().cloned().unwrap_or_default().iter().map(|h| h["doc_id"].clone()).collect();
+      json!({"k": "top_hits", "total": resp["total"], "hits": hits})
+    }
     "filter" => json!({"k": "filter", "buckets": [{"key": Value::Null, "count": resp["doc_count"], "subs": subs_of_resp(resp)}]}),
     "terms" | "rare_terms" | "range" | "date_range" | "histogram" | "date_histogram" | "composite" => {
       let buckets: Vec<Value> = resp["buckets"]
@@ -776,7 +1100,7 @@ fn rat(v: &Value) -> f64 {
 }
 
 /// model node (`nodeToJson`) → canonical view, using the request to name children and keys
-pub fn canon_model(node: &Value, agg: &Value) -> Value {
+pub fn canon_model(node: &Value, agg: &Value, rank_ids: &[String]) -> Value {
   let ty = agg["type"].as_str().unwrap_or("");
   match node["t"].as_str().unwrap_or("") {
     "stats" => {
@@ -789,6 +1113,10 @@ pub fn canon_model(node: &Value, agg: &Value) -> Value {
       v
     }
     "count" => json!({"k": "value", "value": node["n"]}),
+    "hits" => {
+      let hits: Vec<Value> = node["hits"].as_array().cloned().unwrap_or_default().iter().map(|o| json!(rank_ids.get(o.as_u64().unwrap_or(0) as usize).cloned().unwrap_or_default())).collect();
+      json!({"k": "top_hits", "total": node["total"], "hits": hits})
+    }
     "table" => {
       let mut m = Map::new();
       for r in node["rows"].as_array().cloned().unwrap_or_default() {
@@ -827,7 +1155,7 @@ pub fn canon_model(node: &Value, agg: &Value) -> Value {
         .map(|b| {
           let mut m = Map::new();
           for (child, (name, sub)) in b["subs"].as_array().cloned().unwrap_or_default().iter().zip(names.iter()) {
-            m.insert(name.clone(), canon_model(child, sub));
+            m.insert(name.clone(), canon_model(child, sub, rank_ids));
           }
           json!({"key": key_json(&b["key"]), "count": b["count"], "subs": m})
         })
@@ -840,6 +1168,56 @@ pub fn canon_model(node: &Value, agg: &Value) -> Value {
       v
     }
     other => json!({"k": "unsupported", "t": other}),
+  }
+}
+
+/// sort key of a document for a top_hits request
+fn hit_key(agg: &Value, d: &Doc) -> Value {
+  let ks: Vec<Value> = agg["sort"]
+    .as_array()
+    .cloned()
+    .unwrap_or_default()
+    .iter()
+    .map(|sp| {
+      let vs = d.nums(sp["field"].as_str().unwrap_or(""));
+      if vs.is_empty() {
+        Value::Null
+      } else if sp["order"] == "desc" {
+        json!(vs.iter().cloned().fold(f64::NEG_INFINITY, f64::max))
+      } else {
+        json!(vs.iter().cloned().fold(f64::INFINITY, f64::min))
+      }
+    })
+    .collect();
+  json!(ks)
+}
+
+/// The property does not fix the order of hits with equal sort keys (the code breaks ties by
+/// segment and position in the segment, which depends on the layout): replace the hit ids of
+/// every top_hits view by their sort keys.  Duplicate or unknown ids are kept as they are, so
+/// that they still show up as a difference.
+pub fn hits_modulo_ties(view: &mut Value, agg: &Value, by_id: &BTreeMap<String, &Doc>) {
+  if agg["type"] == "top_hits" {
+    let ids: Vec<String> = view["hits"].as_array().cloned().unwrap_or_default().iter().map(|h| h.as_str().unwrap_or("").to_string()).collect();
+    let distinct: BTreeSet<&String> = ids.iter().collect();
+    if distinct.len() == ids.len() && ids.iter().all(|i| by_id.contains_key(i)) {
+      let keys: Vec<Value> = ids.iter().map(|i| hit_key(agg, by_id[i])).collect();
+      view["hits"] = json!(keys);
+    }
+    return;
+  }
+  let subs = subs_of(agg);
+  if subs.is_empty() {
+    return;
+  }
+  if let Some(bs) = view.get_mut("buckets").and_then(|b| b.as_array_mut()) {
+    for b in bs.iter_mut() {
+      for (name, sub) in &subs {
+        if let Some(v) = b["subs"].get_mut(name) {
+          hits_modulo_ties(v, sub, by_id);
+        }
+      }
+    }
   }
 }
 
@@ -966,6 +1344,9 @@ pub fn build_layout(docs: &[Value], layout: &Value) -> Result<Built, String> {
       }
     }
     w.commit().map_err(|e| format!("commit: {e}"))?;
+    // the writer collects a commit's documents in a BTreeMap keyed by id: within a segment the
+    // document order (the tie-break of top_hits) is the byte order of the ids
+    live.sort_by(|a, b| docs[*a]["_id"].as_str().unwrap_or("").as_bytes().cmp(docs[*b]["_id"].as_str().unwrap_or("").as_bytes()));
     segs.push(live);
   }
   if !pending_delete.is_empty() {
@@ -1065,7 +1446,7 @@ fn nonempty_view(v: &Value) -> bool {
   if let Some(bs) = v.get("buckets").and_then(|b| b.as_array()) {
     return bs.iter().any(|b| b["count"].as_u64().unwrap_or(0) > 0);
   }
-  v.get("count").and_then(|c| c.as_u64()).unwrap_or(0) > 0 || v.get("value").and_then(|c| c.as_u64()).unwrap_or(0) > 0 || v.get("values").is_some()
+  v.get("total").and_then(|c| c.as_u64()).unwrap_or(0) > 0 || v.get("count").and_then(|c| c.as_u64()).unwrap_or(0) > 0 || v.get("value").and_then(|c| c.as_u64()).unwrap_or(0) > 0 || v.get("values").is_some()
 }
 
 /// candidate signature for a blamed node, from the request alone
@@ -1077,6 +1458,7 @@ fn candidate_sig(node: &Value) -> Option<&'static str> {
     "rare_terms" => Some("aggs.threshold-per-segment.rare_terms"),
     "histogram" if node.get("min_doc_count").and_then(|m| m.as_u64()).unwrap_or(0) >= 2 => Some("aggs.threshold-per-segment.histogram"),
     "date_histogram" if node.get("min_doc_count").and_then(|m| m.as_u64()).unwrap_or(0) >= 2 => Some("aggs.threshold-per-segment.date_histogram"),
+    "top_hits" if node.get("from").and_then(|m| m.as_u64()).unwrap_or(0) >= 1 => Some("top_hits.from-per-segment"),
     "composite" if node["sources"].as_array().map(|s| s.iter().any(|x| x["type"] == "histogram" && is_i64(x["field"].as_str().unwrap_or("")))).unwrap_or(false) => {
       Some("composite.histogram-i64")
     }
@@ -1102,6 +1484,9 @@ fn neutralize(node: &mut Value) {
     }
     "histogram" | "date_histogram" => {
       node["min_doc_count"] = json!(0);
+    }
+    "top_hits" => {
+      node["from"] = json!(0);
     }
     _ => {}
   }
@@ -1213,6 +1598,17 @@ impl Prop for C12 {
     }
 
     // ---- finder: every layout equals the independent computation
+    let by_id: BTreeMap<String, &Doc> = docs.iter().map(|d| (d.id.clone(), d)).collect();
+    let mt = |views: &BTreeMap<String, Value>, aggs: &Value| -> BTreeMap<String, Value> {
+      views
+        .iter()
+        .map(|(k, v)| {
+          let mut v = v.clone();
+          hits_modulo_ties(&mut v, &aggs[k], &by_id);
+          (k.clone(), v)
+        })
+        .collect()
+    };
     let mut work = aggs.clone();
     let mut guard = 0;
     let mut first_round = true;
@@ -1221,14 +1617,14 @@ impl Prop for C12 {
       if guard > 8 {
         break;
       }
-      let want_w = if first_round { want.clone() } else { expected(&work) };
+      let want_w = mt(&if first_round { want.clone() } else { expected(&work) }, &work);
       let mut found: Option<(usize, Diff, Value, Value)> = None;
       'outer: for (li, r) in readers.iter().enumerate() {
         let views = if first_round {
-          got[li].clone()
+          mt(&got[li], &work)
         } else {
           match impl_views(r, query, &work) {
-            Ok((v, _)) => v,
+            Ok((v, _)) => mt(&v, &work),
             Err(e) => {
               s.fail("aggs.search-error", "search with a valid aggregation request failed", case, json!({"layout": li, "error": e, "aggs": work}));
               return;
@@ -1272,21 +1668,22 @@ impl Prop for C12 {
           if let Some(n) = node_at_mut(&mut relaxed, &d.path) {
             neutralize(n);
           }
-          let want_r = expected(&relaxed);
+          let want_r = mt(&expected(&relaxed), &relaxed);
           let path_ok = |views: &BTreeMap<String, Value>, want: &BTreeMap<String, Value>| -> bool {
             want.iter().all(|(name, w)| match diff_view(name, views.get(name).unwrap_or(&Value::Null), w) {
               Some(d2) => !(d2.path.len() <= d.path.len() && d.path.starts_with(&d2.path)),
               None => true,
             })
           };
-          let single_ok = built.iter().zip(readers.iter()).filter(|(b, _)| b.segs.len() == 1).all(|(_, r)| impl_views(r, query, &work).map(|(v, _)| path_ok(&v, &want_w)).unwrap_or(false));
-          let relaxed_ok = readers.iter().all(|r| impl_views(r, query, &relaxed).map(|(v, _)| path_ok(&v, &want_r)).unwrap_or(false));
+          let single_ok = built.iter().zip(readers.iter()).filter(|(b, _)| b.segs.len() == 1).all(|(_, r)| impl_views(r, query, &work).map(|(v, _)| path_ok(&mt(&v, &work), &want_w)).unwrap_or(false));
+          let relaxed_ok = readers.iter().all(|r| impl_views(r, query, &relaxed).map(|(v, _)| path_ok(&mt(&v, &relaxed), &want_r)).unwrap_or(false));
           single_ok && relaxed_ok && built[li].segs.len() > 1
         };
         if ok {
           sig = cand.to_string();
           what = match cand {
             "composite.histogram-i64" => "composite aggregation with a histogram source over an i64 field returns no buckets".to_string(),
+            "top_hits.from-per-segment" => "top_hits applies `from` in every segment's finish() and again in every merge: wrong window when the hits are spread over several segments".to_string(),
             _ => format!("`{kind}` applies its doc-count threshold / size per segment before merging: wrong buckets when a key is spread over several segments"),
           };
         }
@@ -1309,7 +1706,17 @@ impl Prop for C12 {
     // ---- correspondence: mechanism model vs implementation, Spec vs oracle
     let fields = field_kinds();
     for (li, b) in built.iter().enumerate() {
-      let segs: Vec<Vec<Value>> = b.segs.iter().map(|seg| seg.iter().filter(|i| matched_ids.contains(&docs[**i].id)).map(|i| docs[*i].model_json(*i)).collect()).collect();
+      // documents are numbered in index order (segment, then position in the segment)
+      let mut rank_ids: Vec<String> = Vec::new();
+      let mut segs: Vec<Vec<Value>> = Vec::new();
+      for seg in &b.segs {
+        let mut out = Vec::new();
+        for i in seg.iter().filter(|i| matched_ids.contains(&docs[**i].id)) {
+          out.push(docs[*i].model_json(rank_ids.len()));
+          rank_ids.push(docs[*i].id.clone());
+        }
+        segs.push(out);
+      }
       for name in &agg_names {
         let agg = &aggs[name];
         let m = drv.call("C12", json!({"op": "run", "fields": fields, "segs": segs, "agg": agg}));
@@ -1317,15 +1724,18 @@ impl Prop for C12 {
           s.disagree("aggs.model-error", case, json!({"layout": li, "agg": name}), m);
           return;
         }
-        let mv = canon_model(&m["resp"], agg);
+        let mv = canon_model(&m["resp"], agg, &rank_ids);
         let iv = got[li].get(name).cloned().unwrap_or(Value::Null);
         if let Some(d) = diff_view(name, &iv, &mv) {
           s.disagree("aggs.run", case, json!({"layout": li, "path": d.path, "diff": d.what, "view": iv}), mv);
           return;
         }
         if li == 0 {
-          let sv = canon_model(&m["spec"], agg);
-          if let Some(d) = diff_view(name, &sv, &want[name]) {
+          let mut sv = canon_model(&m["spec"], agg, &rank_ids);
+          let mut ov = want[name].clone();
+          hits_modulo_ties(&mut sv, agg, &by_id);
+          hits_modulo_ties(&mut ov, agg, &by_id);
+          if let Some(d) = diff_view(name, &sv, &ov) {
             s.disagree("aggs.spec-vs-oracle", case, json!({"path": d.path, "diff": d.what, "oracle": want[name]}), sv);
             return;
           }
@@ -1335,7 +1745,7 @@ impl Prop for C12 {
   }
 
   fn finish(&self, _tier: Tier, s: &mut Summary) {
-    s.notes.push("kinds generated and modelled: terms (size, min_doc_count, missing), rare_terms, range, histogram (offset, extended/hard bounds, missing, min_doc_count), stats, extended_stats, value_count, cardinality, percentiles/percentile_ranks (exact mode), filter, composite, sub-aggregations to depth 3".into());
-    s.notes.push("not generated (not modelled): significant_terms, sampling, shard_size, pipeline aggregations, t-digest mode of percentiles (> 256 values), duplicate range keys, MAX_BUCKETS".into());
+    s.notes.push("kinds generated and modelled: terms (size, min_doc_count, missing), rare_terms, range, histogram (offset, extended/hard bounds, missing, min_doc_count), stats, extended_stats, value_count, cardinality, percentiles/percentile_ranks (exact mode), filter, composite, top_hits (numeric sorts), date_range, date_histogram (fixed and calendar intervals, offset, bounds, missing, min_doc_count), sub-aggregations to depth 3".into());
+    s.notes.push("not generated (not modelled): significant_terms, sampling, shard_size, pipeline aggregations, t-digest mode of percentiles (> 256 values), duplicate range keys, MAX_BUCKETS, top_hits sorted by _score or keyword fields, date_histogram with calendar interval + offset + bounds".into());
   }
 }
